@@ -20,6 +20,7 @@ RULE = ("Trees from four generators: arbitrary trees (unknown/known names, any U
         "validate.node on every node run fail-fast and collecting (with a pre-filled list).  Non-trivial: a tree with "
         ">= 2 nodes in which at least one node fails validation; distinct trees by hash.")
 RULE += ('  Call forms of the walk: from the root, from an inner node, from a copy of an inner node, from a node constructed with parent= and never attached, from a removed child (parent links that point at a node which does not list the child).')
+RULE += ('  Every collecting call is made with a fresh EMPTY list as well as with a list that already holds an entry.')
 ASSUMPTIONS = [
     "text is Unicode without lone surrogates (not XML-representable; str.encode fails inside third-party code)",
     "nesting depth <= 100; the harness raises the interpreter recursion limit, deeper trees are outside the claim",
